@@ -25,7 +25,7 @@ type c16Case struct {
 	Client    string `json:"client"`
 	ServerCID int    `json:"server_cid_len"`
 	ClientCID int    `json:"client_cid_len"`
-	Close     string `json:"close"`   // client server idle client-transport server-transport
+	Close     string `json:"close"`   // client server idle client-transport server-transport client-send-error server-send-error
 	BulkMB    int    `json:"bulk_mb"` // > 0: enough packets to make the endpoints rotate connection IDs
 	Dials     int    `json:"dials"`
 	Retry     bool   `json:"retry,omitempty"` // the server validates addresses with a Retry: the connection is created under the Retry's connection ID
@@ -41,7 +41,7 @@ func TestVerifC16Routing(t *testing.T) {
 				if cl != "plain" && cc != 4 {
 					continue
 				}
-				for _, how := range []string{"client", "server", "idle", "client-transport", "server-transport"} {
+				for _, how := range []string{"client", "server", "idle", "client-transport", "server-transport", "client-send-error", "server-send-error"} {
 					cases = append(cases, c16Case{Name: fmt.Sprintf("%s/scid%d/ccid%d/%s", cl, scid, cc, how), Client: cl, ServerCID: scid, ClientCID: cc, Close: how, Dials: 2})
 					if scid == 8 {
 						cases = append(cases, c16Case{Name: fmt.Sprintf("%s/scid%d/ccid%d/%s/retry", cl, scid, cc, how), Client: cl, ServerCID: scid, ClientCID: cc, Close: how, Dials: 2, Retry: true})
@@ -245,6 +245,19 @@ func runC16Routing(l *evlog.Log, c *evlog.Case, cs *c16Case) {
 			time.Sleep(idle + 2*time.Second)
 			w.Router.SetBlackhole(wiretap.C2S, false)
 			w.Router.SetBlackhole(wiretap.S2C, false)
+		case "client-send-error":
+			// the socket refuses the CONNECTION_CLOSE datagram: the connection must be unrouted all the same
+			w.ClientSendFails.Store(true)
+			cc.CloseWithError(7, "bye")
+			time.Sleep(10 * time.Millisecond)
+			w.ClientSendFails.Store(false)
+			sc.CloseWithError(0, "")
+		case "server-send-error":
+			w.ServerSendFails.Store(true)
+			sc.CloseWithError(8, "bye")
+			time.Sleep(10 * time.Millisecond)
+			w.ServerSendFails.Store(false)
+			cc.CloseWithError(0, "")
 		case "client-transport":
 			if dial == cs.Dials-1 {
 				w.ClientTr.Close()
